@@ -130,6 +130,96 @@ theorem C10_no_code (s : List Char) (q : Q) (h : safeEval s = .ok q) :
     · rename_i cls hl
       exact ⟨c, cls, hc, hl, h⟩
 
+/-! ## texts `__str__` prints that are not Python: numpy-style lists -/
+
+/-- **blank-separated lists.**  `GetArg` reads every list in the form `str(numpy.ndarray)`
+    prints for an array-valued option — any number of items, any number (≥ 1) of blanks between
+    two items, any padding after `[` and before `]`, integers, floats, `2.` with no fraction
+    digits, exponents — as the list of its numbers.  The blank IS the separator: the items are
+    the maximal blank-free runs. -/
+theorem C10_getarg_numpy_list (pre : Nat) (ns : List (NumLit × Nat))
+    (h : (Lit.blist pre ns).rd = true) :
+    getArg (Lit.blist pre ns).text = .list (ns.map fun p => p.1.num) :=
+  getArg_blist pre ns h
+
+/-- **the call with the denoted values, for every readable argument list** — the grammar of
+    `C10_parse_eq_python` plus what is not Python syntax but is printed by `__str__` or accepted
+    by `int()`: numpy-style lists anywhere (positional or keyword), leading zeros.  Same verdicts. -/
+theorem C10_parse_denoted (name : String) (as : List Arg) (hname : isIdent name = true)
+    (hrd : ∀ a ∈ as, a.rd = true) : parseCall (render name as) = pyCall name as := by
+  rw [parseCall_render name as hname hrd]
+  unfold pyCall
+  cases h : argPosAfterKw as
+  · by_cases hk : (argKeys as).Nodup
+    · simp only [Bool.false_eq_true, if_false, hk, if_true]
+      rw [itemKwargs_render as hrd [] (by simpa [Env.keys] using hk)]
+      rfl
+    · simp only [Bool.false_eq_true, if_false, hk]
+  · rfl
+
+/-! ## overrides and histories: `safe_eval(text, table, *params, **kwparams)` -/
+
+/-- without overrides `safe_eval` is the plain reading of the text -/
+theorem C10_overrides_none (s : List Char) : parseCallWith s [] [] = parseCall s := by
+  unfold parseCallWith
+  cases h : parseCall s with
+  | error e => rfl
+  | ok c =>
+    have hc : c.called = false → c.args = [] ∧ c.kwargs = [] := by
+      intro hcalled
+      unfold parseCall at h
+      split at h
+      · split at h
+        · cases h
+        · simp only [Except.ok.injEq] at h; subst h; cases hcalled
+      · simp only [Except.ok.injEq] at h; subst h; exact ⟨rfl, rfl⟩
+      · simp only [Except.ok.injEq] at h; subst h; exact ⟨rfl, rfl⟩
+    obtain ⟨n, a, k, cd⟩ := c
+    cases cd with
+    | true => simp [overrideKw]
+    | false =>
+      obtain ⟨ha, hk⟩ := hc rfl
+      simp only at ha hk
+      subst ha; subst hk
+      rfl
+
+/-- **what the overrides do, and nothing else**: the positional arguments of the text stay in
+    front, in order; a keyword reads the LAST override given for it, otherwise the value of the
+    text; the name is the text's.  (No other argument appears: a keyword that is neither in the
+    text nor among the overrides is absent.) -/
+theorem C10_overrides_merge (s : List Char) (params : List PyVal) (kw : Env) (c : Call)
+    (h : parseCall s = .ok c) :
+    ∃ c', parseCallWith s params kw = .ok c' ∧ c'.name = c.name ∧ c'.args = c.args ++ params ∧
+      ∀ k, c'.kwargs.lookup k = match kw.reverse.lookup k with
+        | some v => some v
+        | none => c.kwargs.lookup k := by
+  unfold parseCallWith
+  rw [h]
+  exact ⟨_, rfl, rfl, rfl, fun k => lookup_overrideKw c.kwargs kw k⟩
+
+/-- **the specification of a history is pointwise**: in a process that answers the requests
+    `pre`, then `r`, then `post`, the answer to `r` is the answer `r` gets on its own — whatever
+    texts were parsed before, with whatever overrides, under whatever names.  (The model has no
+    state; an implementation that memoises `GetParams` and hands out the cached containers, so
+    that an override or a caller's mutation leaks into a later parse of the same argument text,
+    is outside it, and the tie replays histories against this statement.) -/
+theorem C10_session_pointwise (pre post : List Request) (r : Request) :
+    (runSession (pre ++ r :: post))[pre.length]? = some (answer r) ∧
+    runSession (pre ++ r :: post) = runSession pre ++ answer r :: runSession post := by
+  constructor
+  · simp [runSession]
+  · simp [runSession]
+
+/-- the leak of seed C10-5 stated on the model: after
+    `safe_eval("quantized_bits(4,0,1)", table, keep_negative=False)` the text still reads without
+    the keyword, under its own and under any other name -/
+theorem C10_session_witness :
+    runSession [⟨"quantized_bits(4,0,1)".toList, [], [("keep_negative", .bool false)]⟩,
+                ⟨"quantized_bits(4,0,1)".toList, [], []⟩, ⟨"quantized_relu(4,0,1)".toList, [], []⟩]
+      = [.ok ⟨"quantized_bits", [.int 4, .int 0, .int 1], [("keep_negative", .bool false)], true⟩,
+         .ok ⟨"quantized_bits", [.int 4, .int 0, .int 1], [], true⟩,
+         .ok ⟨"quantized_relu", [.int 4, .int 0, .int 1], [], true⟩] := by decide +kernel
+
 /-! ## where safe_eval is still NOT Python (outside the grammar) -/
 
 /-- the blank-separated list of the unrepaired parser is still understood (not Python syntax) -/
@@ -265,6 +355,85 @@ theorem C10_str_roundtrip_instance (c : Cls) (args : List PyVal) (kw : Env)
         obtain ⟨e', h2, h3⟩ := C10_str_roundtrip_checked q fl as hf hr ht
         exact ⟨q, e', rfl, h2, h3⟩
 
+/-! ### the complete option set (strengthening round, seed C10-3)
+
+  "Denotes the same function" is judged on EVERY constructor argument: an option the text omits
+  is rebuilt at the constructor default of the rebuilt class, so the statement that omits it must
+  be anchored at that class's own default — not at the default of a sibling class that shares the
+  printing code (`temperature`: 6.0 for `bernoulli` / `stochastic_binary`, 8.0 for
+  `stochastic_ternary`). -/
+
+/-- **an option is omitted only at the default of its own class** — every class, every statement
+    of its `__str__`, every option value (of a kind a truthiness test can judge; the `!= c` and
+    `is not None` tests need no restriction): if the statement's condition does not hold, the
+    value is `==` the constructor default of that class. -/
+theorem C10_str_omitted_is_default (c : Cls) (s : FlagSpec) (hs : s ∈ posSpec c ++ kwSpec c)
+    (v : PyVal) (hk : s.cond.kindOK (defaultOf c s.name) v = true)
+    (hc : s.cond.holds v = false) : (defaultOf c s.name).pyEq v = true :=
+  omitted_eq_default _ _ _ (anchored_all c s hs) hk hc
+
+/-- the statement tables are exhaustive up to four names: what `__str__` cannot express is
+    `qnoise_factor`, `var_name`, `use_variables`, `post_training_scale`, and nothing at all for
+    the classes without those parameters (the three stochastic classes among them) -/
+theorem C10_str_unprinted_table (c : Cls) :
+    (∀ k ∈ unprinted c, k ∈ ["qnoise_factor", "var_name", "use_variables", "post_training_scale"]) ∧
+    (c ∈ [Cls.bernoulli, .ternary, .stochastic_ternary, .binary, .stochastic_binary, .quantized_ulaw,
+          .quantized_tanh, .quantized_sigmoid] → unprinted c = []) := by
+  cases c <;> decide +kernel
+
+/-- **str round trip, complete option set.**  For a quantizer whose printed flags are readable,
+    whose printed texts denote the values they print (`Denotes`) and whose truthiness-tested
+    options are flags / numbers / None (`Kinded`) — no "omitted ⇒ default" hypothesis: that is
+    `C10_str_omitted_is_default` — `get_quantizer(str(q))` runs the constructor body on arguments
+    in which EVERY constructor parameter is accounted for: a parameter `__str__` can express is
+    `==` the option of `q`; every other parameter is the constructor default; so the whole option
+    set is `==` the original as soon as the unprintable options are at their defaults. -/
+theorem C10_str_roundtrip_complete (q : Q) (fl : List Flag) (as : List Arg)
+    (hf : flagsF q = .ok fl) (hr : Readable fl as) (hd : Denotes q) (hk : Kinded q) :
+    ∃ e', reparse q = init q.cls e' ∧
+      (∀ k ∈ paramNames q.cls, k ∉ unprinted q.cls → (e'.get k).pyEq (q.get k) = true) ∧
+      (∀ k ∈ unprinted q.cls, e'.get k = defaultOf q.cls k) ∧
+      ((∀ k ∈ unprinted q.cls, (defaultOf q.cls k).pyEq (q.get k) = true) →
+        ∀ k ∈ paramNames q.cls, (e'.get k).pyEq (q.get k) = true) := by
+  obtain ⟨e', hb, hp, hu⟩ := flags_bind_full q fl hf (typed_of_denotes q hd hk)
+  have hre : reparse q = init q.cls e' := by
+    rw [(C10_str_reparse_eq_python q fl as hf hr).2.2]
+    unfold construct
+    rw [hb]
+  have h1 : ∀ k ∈ paramNames q.cls, k ∉ unprinted q.cls → (e'.get k).pyEq (q.get k) = true := by
+    intro k hk1 hk2
+    rcases param_printed_or_unprinted q.cls k hk1 with h | h
+    · exact hp k h
+    · exact absurd h hk2
+  refine ⟨e', hre, h1, hu, fun hdef k hk1 => ?_⟩
+  by_cases hk2 : k ∈ unprinted q.cls
+  · rw [hu k hk2]; exact hdef k hk2
+  · exact h1 k hk1 hk2
+
+/-- … with all hypotheses decided for a concrete call `cls(*args, **kw)` -/
+theorem C10_str_roundtrip_complete_instance (c : Cls) (args : List PyVal) (kw : Env)
+    (h : completeHyps c args kw = true) :
+    ∃ q e', construct c args kw = .ok q ∧ reparse q = init q.cls e' ∧
+      ∀ k ∈ paramNames q.cls, (e'.get k).pyEq (q.get k) = true := by
+  unfold completeHyps at h
+  cases hq : construct c args kw with
+  | error e => rw [hq] at h; cases h
+  | ok q =>
+    rw [hq] at h
+    simp only [Bool.and_eq_true, decide_eq_true_eq] at h
+    obtain ⟨⟨⟨h1, hd⟩, hk⟩, hu⟩ := h
+    cases hf : flagsF q with
+    | error e => rw [hf] at h1; cases h1
+    | ok fl =>
+      rw [hf] at h1
+      simp only at h1
+      cases hr : readFlags fl with
+      | none => rw [hr] at h1; cases h1
+      | some as =>
+        obtain ⟨e', h2, _, _, h3⟩ :=
+          C10_str_roundtrip_complete q fl as hf (readFlags_sound fl as hr) hd hk
+        exact ⟨q, e', rfl, h2, h3 hu⟩
+
 /-- **closed form, `quantized_tanh`**: for every bit width and every combination of the three
     flags (the class whose flags used to land in each other's slots) the string round trip
     rebuilds a quantizer whose every constructor argument is `==` the original's. -/
@@ -339,6 +508,102 @@ theorem C10_str_roundtrip_sigmoid (b : Nat) (sy re u : Bool) :
   · rw [hre]; rfl
   · intro k hk
     exact hall k hk
+
+/-- **closed form, `bernoulli` and `stochastic_binary`**: every scale option (`None`, `"auto"`,
+    `"auto_po2"`), EVERY integer temperature — 6, the own default (omitted), and 8, the default of
+    `stochastic_ternary` (printed), included — and both values of `use_real_sigmoid`: the string
+    round trip rebuilds a quantizer whose every constructor argument is `==` the original's.
+    No hypotheses. -/
+theorem C10_str_roundtrip_bernoulli (sb : Bool) (a : AutoAlpha) (t : Int) (b : Bool) :
+    let c : Cls := if sb then .stochastic_binary else .bernoulli
+    let q : Q := ⟨c, [("alpha", a.val), ("temperature", .int t), ("use_real_sigmoid", .bool b)]⟩
+    ∃ q', reparse q = .ok q' ∧ q'.cls = c ∧ ∀ k ∈ paramNames c, (q'.get k).pyEq (q.get k) = true := by
+  intro c q
+  have hf := flags_bernoulli sb a t b
+  have hr := readable_append (readable_append a.readable
+      (readable_if (t = 6) _ _ (flagLit_int (some "temperature") (fun k hk => by cases hk; decide +kernel) t)))
+      (readable_if (b = true) _ _ (zeroFlagLit "use_real_sigmoid" (by decide +kernel)))
+  have hd : Denotes q := by
+    refine ⟨fun s hs => ?_, fun s hs => ?_⟩
+    · have h : s ∈ ([] : List FlagSpec) := by cases sb <;> exact hs
+      cases h
+    · have h : s ∈ ([⟨"alpha", .notNone, .alpha⟩, ⟨"temperature", .ne (.float 6), .str⟩,
+          ⟨"use_real_sigmoid", .falsy, .int⟩] : List FlagSpec) := by cases sb <;> exact hs
+      simp only [List.mem_cons, List.not_mem_nil, or_false] at h
+      rcases h with rfl | rfl | rfl
+      · exact denotesOK_id _ _ _ (Or.inr (Or.inl rfl))
+      · exact denotesOK_id _ _ _ (Or.inl rfl)
+      · cases sb <;> cases b <;> rfl
+  have hk : Kinded q := by
+    intro s hs
+    have h : s ∈ ([⟨"alpha", .notNone, .alpha⟩, ⟨"temperature", .ne (.float 6), .str⟩,
+        ⟨"use_real_sigmoid", .falsy, .int⟩] : List FlagSpec) := by cases sb <;> exact hs
+    simp only [List.mem_cons, List.not_mem_nil, or_false] at h
+    rcases h with rfl | rfl | rfl
+    · rfl
+    · rfl
+    · cases sb <;> cases b <;> rfl
+  obtain ⟨e', hre, _, _, hall⟩ := C10_str_roundtrip_complete q _ _ hf hr hd hk
+  have hun : unprinted q.cls = [] := by cases sb <;> rfl
+  refine ⟨⟨c, e'⟩, ?_, rfl, ?_⟩
+  · rw [hre]; cases sb <;> rfl
+  · exact hall (fun k hk' => by rw [hun] at hk'; cases hk')
+
+
+/-- **closed form, `stochastic_ternary`** (the class of seed C10-3): every scale option, EVERY
+    integer temperature — 8, the own default (omitted), and 6, the default of the two sibling
+    classes (printed: `stochastic_ternary(temperature=6)`), included —, both values of
+    `use_real_sigmoid`, every integer `number_of_unrolls`, no threshold: every constructor
+    argument of the rebuilt quantizer is `==` the original's.  No hypotheses.  (A printing helper
+    shared with `bernoulli` that omits the temperature at 6 falsifies this statement at `t = 6`.) -/
+theorem C10_str_roundtrip_stochastic_ternary (a : AutoAlpha) (t n : Int) (b : Bool) :
+    let q : Q := ⟨.stochastic_ternary,
+      [("alpha", a.val), ("threshold", .none), ("temperature", .int t), ("use_real_sigmoid", .bool b),
+       ("number_of_unrolls", .int n)]⟩
+    ∃ q', reparse q = .ok q' ∧ q'.cls = .stochastic_ternary ∧
+      ∀ k ∈ paramNames .stochastic_ternary, (q'.get k).pyEq (q.get k) = true := by
+  intro q
+  have hf := flags_sternary a t n b
+  have hr := readable_append (readable_append (readable_append a.readable
+      (readable_if (t = 8) _ _ (flagLit_int (some "temperature") (fun k hk => by cases hk; decide +kernel) t)))
+      (readable_if (b = true) _ _ (zeroFlagLit "use_real_sigmoid" (by decide +kernel))))
+      (readable_if (n = 5) _ _ (flagLit_int (some "number_of_unrolls") (fun k hk => by cases hk; decide +kernel) n))
+  have hd : Denotes q := by
+    refine ⟨fun s hs => ?_, fun s hs => ?_⟩
+    · have h0 : s ∈ ([] : List FlagSpec) := hs
+      cases h0
+    have h : s ∈ ([⟨"alpha", .notNone, .alpha⟩, ⟨"threshold", .notNone, .str⟩,
+        ⟨"temperature", .ne (.float 8), .str⟩, ⟨"use_real_sigmoid", .falsy, .lit "0" (.int 0)⟩,
+        ⟨"number_of_unrolls", .ne (.int 5), .str⟩] : List FlagSpec) := hs
+    simp only [List.mem_cons, List.not_mem_nil, or_false] at h
+    rcases h with rfl | rfl | rfl | rfl | rfl
+    · exact denotesOK_id _ _ _ (Or.inr (Or.inl rfl))
+    · exact denotesOK_id _ _ _ (Or.inl rfl)
+    · exact denotesOK_id _ _ _ (Or.inl rfl)
+    · cases b <;> rfl
+    · exact denotesOK_id _ _ _ (Or.inl rfl)
+  have hk : Kinded q := by
+    intro s hs
+    have h : s ∈ ([⟨"alpha", .notNone, .alpha⟩, ⟨"threshold", .notNone, .str⟩,
+        ⟨"temperature", .ne (.float 8), .str⟩, ⟨"use_real_sigmoid", .falsy, .lit "0" (.int 0)⟩,
+        ⟨"number_of_unrolls", .ne (.int 5), .str⟩] : List FlagSpec) := hs
+    simp only [List.mem_cons, List.not_mem_nil, or_false] at h
+    rcases h with rfl | rfl | rfl | rfl | rfl
+    · rfl
+    · rfl
+    · rfl
+    · cases b <;> rfl
+    · rfl
+  obtain ⟨e', hre, _, _, hall⟩ := C10_str_roundtrip_complete q _ _ hf hr hd hk
+  have hall' := hall (fun k hk' => by cases hk')
+  have hth : e'.get "threshold" = .none :=
+    eq_none_of_pyEq_none _ (hall' "threshold"
+      (show "threshold" ∈ paramNames .stochastic_ternary by decide +kernel))
+  have hinit : init .stochastic_ternary e' = .ok ⟨.stochastic_ternary, e'⟩ := by
+    unfold init check
+    simp only [hth]
+    rfl
+  exact ⟨⟨.stochastic_ternary, e'⟩, by rw [hre]; exact hinit, rfl, hall'⟩
 
 /-! ### the former failures of the str direction, now regression witnesses
     (each evaluates the model at the old failing input; replayed on the real code by the tie) -/
@@ -447,6 +712,93 @@ theorem C10_str_unchanged_witness :
     text (strTrip .quantized_po2 [("bits", .int 4), ("max_value", .int 8)]) = some "quantized_po2(4,8)" ∧
     text (strTrip .binary []) = some "binary()" := by decide +kernel
 
+/-- the cross-default points of the option lattice, evaluated in the model (replayed on the real
+    code by the tie): the temperature that is the default of the SIBLING classes is printed and
+    read back — `stochastic_ternary` at 6.0 (default 8.0), `bernoulli` / `stochastic_binary` at
+    8.0 (default 6.0) — and each class omits exactly its own default -/
+theorem C10_str_cross_default_witness :
+    (let r := strTrip .stochastic_ternary [("alpha", .str "auto"), ("temperature", .float 6)]
+     text r = some "stochastic_ternary(alpha='auto',temperature=6.0)" ∧
+       slot r "temperature" = some (.float 6)) ∧
+    (let r := strTrip .bernoulli [("temperature", .float 8)]
+     text r = some "bernoulli(temperature=8.0)" ∧ slot r "temperature" = some (.float 8)) ∧
+    (let r := strTrip .stochastic_binary [("temperature", .float 8)]
+     text r = some "stochastic_binary(temperature=8.0)" ∧ slot r "temperature" = some (.float 8)) ∧
+    text (strTrip .stochastic_ternary [("temperature", .float 8)]) = some "stochastic_ternary()" ∧
+    text (strTrip .bernoulli [("temperature", .float 6)]) = some "bernoulli()" ∧
+    text (strTrip .quantized_relu [("negative_slope", .int 0)]) = some "quantized_relu(8,0)" ∧
+    (let r := strTrip .quantized_hswish [("relu_upper_bound", .none)]
+     slot r "relu_upper_bound" = some .none) ∧
+    (let r := strTrip .ternary [("threshold", .float 0), ("number_of_unrolls", .int 0)]
+     text r = some "ternary(threshold=0.0,number_of_unrolls=0)" ∧
+       slot r "threshold" = some (.float 0) ∧ slot r "number_of_unrolls" = some (.int 0)) := by
+  decide +kernel
+
+/-! ### found in the strengthening round: a falsy scale is dropped (recorded finding) -/
+
+/-- `quantized_bits.__str__` / `quantized_hswish.__str__` test the scale with `if self.alpha:`
+    where the four sibling classes test `is not None`: `alpha=0` / `0.0` (accepted by the
+    constructor; the quantizer is the zero function) is not printed and the rebuilt quantizer has
+    `alpha=None`.  `quantized_linear` with the same option round-trips.  This is the instance
+    `Kinded` excludes from `C10_str_roundtrip_complete`. -/
+theorem C10_str_counterexample_falsy_alpha :
+    (let r := strTrip .quantized_bits [("alpha", .float 0)]
+     text r = some "quantized_bits(8,0,0)" ∧ slot r "alpha" = some .none) ∧
+    (let r := strTrip .quantized_hswish [("alpha", .int 0)]
+     text r = some "quantized_hswish(8,0,0,relu_shift=3,relu_upper_bound=6)" ∧
+       slot r "alpha" = some .none) ∧
+    (let r := strTrip .quantized_linear [("alpha", .float 0)]
+     text r = some "quantized_linear(8,0,1,alpha=0.0)" ∧ slot r "alpha" = some (.float 0)) ∧
+    completeHyps .quantized_bits [] [("alpha", .float 0)] = false ∧
+    completeHyps .quantized_linear [] [("alpha", .float 0)] = true := by
+  decide +kernel
+
+/-! ### found in the second strengthening round: list-valued axes lose the whole call (recorded) -/
+
+/-- `BaseQuantizer` is a `tf.Module`: a Python list assigned to an attribute is wrapped for
+    tracking, and `str(self.scale_axis).replace(" ", "")` of the wrapper is
+    `ListWrapper([0,1])`.  The printed call then has a second "(" and `safe_eval` silently drops
+    EVERY argument (`C10_parse_counterexample_second_paren`): the rebuilt quantizer is the default
+    `quantized_bits(8,0,0)`.  Same for `elements_per_scale`, for `quantized_linear` and
+    `quantized_hswish`.  `binary` prints its lists item by item and round-trips. -/
+theorem C10_str_counterexample_tracked_list :
+    (let r := strTrip .quantized_bits
+        [("bits", .int 4), ("alpha", .str "auto"), ("scale_axis", .list [.int 0, .int 1])]
+     text r = some "quantized_bits(4,0,1,alpha='auto',scale_axis=ListWrapper([0,1]))" ∧
+       slot r "bits" = some (.int 8) ∧ slot r "alpha" = some .none ∧
+       slot r "scale_axis" = some .none) ∧
+    (let r := strTrip .quantized_linear
+        [("bits", .int 4), ("alpha", .str "auto"), ("scale_axis", .list [.int 0, .int 1])]
+     text r = some "quantized_linear(4,0,1,alpha='auto',scale_axis=ListWrapper([0,1]))" ∧
+       slot r "bits" = some (.int 8)) ∧
+    (let r := strTrip .binary [("alpha", .str "auto"), ("scale_axis", .list [.int 0, .int 1])]
+     text r = some "binary(alpha='auto',scale_axis=[0,1])" ∧
+       slot r "scale_axis" = some (.list [.int 0, .int 1])) := by
+  decide +kernel
+
+/-- array-valued (per-channel) options print as `str(numpy.ndarray)` — blanks, no commas — and
+    read back as the list of the same numbers: the scale of `quantized_linear`, the integer bits
+    of `quantized_bits` / `quantized_relu` (ndarray or tf.Variable, as QAdaptiveActivation stores
+    them).  A blank is the item separator here: removing the blanks of the text
+    (`"[1 2 0]"` → `"[120]"`) changes what it denotes. -/
+theorem C10_str_array_option_witness :
+    (let r := strTrip .quantized_linear
+        [("bits", .int 4), ("alpha", .list [.float (1 / 2), .float (1 / 4), .float 2])]
+     text r = some "quantized_linear(4,0,1,alpha=[0.5  0.25 2.  ])" ∧
+       slot r "alpha" = some (.list [.float (1 / 2), .float (1 / 4), .float 2])) ∧
+    (let r := strTrip .quantized_bits
+        [("integer", .list [.int 10, .int 2, .int 0]), ("symmetric", .int 1), ("alpha", .float 1)]
+     text r = some "quantized_bits(8,[10  2  0],1,alpha=1.0)" ∧
+       slot r "integer" = some (.list [.int 10, .int 2, .int 0])) ∧
+    (let r := strTrip .quantized_relu [("integer", .list [.int 1, .int 2, .int 0])]
+     text r = some "quantized_relu(8,[1 2 0])" ∧
+       slot r "integer" = some (.list [.int 1, .int 2, .int 0])) ∧
+    parseCall "quantized_relu(8,[1 2 0])".toList
+      = .ok ⟨"quantized_relu", [.int 8, .list [.int 1, .int 2, .int 0]], [], true⟩ ∧
+    parseCall ("quantized_relu(8,[1 2 0])".toList.filter (· != ' '))
+      = .ok ⟨"quantized_relu", [.int 8, .list [.int 120]], [], true⟩ := by
+  decide +kernel
+
 /-! ### kept: `qnoise_factor` is never printed (recorded finding, see notes/C10.md) -/
 
 /-- `qnoise_factor` is training-time state (a tensor under QAdaptiveActivation, a variable under
@@ -474,7 +826,9 @@ example :
       [("negative_slope", .float (1 / 4)), ("relu_upper_bound", .float (3 / 2)),
        ("use_ste", .bool false)] = true ∧
     roundTripHyps .quantized_bits [.int 4, .int 1]
-      [("alpha", .str "auto_po2"), ("scale_axis", .int 0),
+      [("alpha", .str "auto_po2"), ("scale_axis", .int 0), ("elements_per_scale", .int 2)] = true ∧
+    roundTripHyps .binary []
+      [("alpha", .str "auto_po2"), ("scale_axis", .list [.int 0, .int 1]),
        ("elements_per_scale", .list [.int 2, .int 2])] = true ∧
     roundTripHyps .bernoulli [] [("alpha", .str "auto"), ("temperature", .float (9 / 2))] = true ∧
     roundTripHyps .quantized_relu_po2 []
@@ -482,6 +836,51 @@ example :
        ("log2_rounding", .str "floor")] = true ∧
     roundTripHyps .quantized_hswish [] [("alpha", .str "auto"), ("scale_axis", .int 0)] = true := by
   decide +kernel
+
+/-- numpy-style lists are in the readable grammar (and not in the Python one) -/
+example :
+    (Lit.blist 0 [(.float false ['0'] ['5'] none, 2), (.float false ['0'] ['2', '5'] none, 1),
+      (.float false ['2'] [] none, 2)]).rd = true ∧
+    (Lit.blist 0 [(.float false ['0'] ['5'] none, 2), (.float false ['0'] ['2', '5'] none, 1),
+      (.float false ['2'] [] none, 2)]).text = "[0.5  0.25 2.  ]".toList ∧
+    (Lit.blist 1 [(.int false ['1'], 1), (.int true ['2'], 0)]).wf = false := by decide +kernel
+
+/-- per-channel options printed as `str(numpy.ndarray)` satisfy the round-trip hypotheses:
+    array-valued alpha of quantized_linear, per-channel integer bits of quantized_bits / relu -/
+example :
+    completeHyps .quantized_linear [.int 4]
+      [("alpha", .list [.float (1 / 2), .float (1 / 4), .float 2])] = true ∧
+    completeHyps .quantized_bits []
+      [("integer", .list [.int 10, .int 2, .int 0]), ("alpha", .float 1), ("symmetric", .int 1)] = true ∧
+    completeHyps .quantized_relu [] [("integer", .list [.int 1, .int 2, .int 0])] = true ∧
+    -- a one-channel array loses its brackets ("[3]" -> "3"): the text denotes the scalar
+    completeHyps .quantized_relu [] [("integer", .list [.int 3])] = false ∧
+    -- list-valued axes of quantized_bits: the tracked-list text is not a literal
+    completeHyps .quantized_bits [] [("alpha", .str "auto"), ("scale_axis", .list [.int 0, .int 1])] = false := by
+  decide +kernel
+
+/-- the complete-option-set hypotheses hold at the cross-default points and for falsy-but-legal
+    option values -/
+example :
+    completeHyps .stochastic_ternary []
+      [("alpha", .str "auto"), ("temperature", .float 6), ("number_of_unrolls", .int 0)] = true ∧
+    completeHyps .bernoulli [] [("alpha", .str "auto_po2"), ("temperature", .float 8)] = true ∧
+    completeHyps .ternary [] [("threshold", .float 0)] = true ∧
+    completeHyps .quantized_ulaw [.int 4, .int 1] [("u", .float 0)] = true ∧
+    completeHyps .quantized_relu [] [("relu_upper_bound", .float 0), ("negative_slope", .int 0)] = true := by
+  decide +kernel
+
+/-- the anchoring clause does exclude something: the statement of the seeded change — one helper
+    for the three stochastic classes that omits `temperature` at 6.0 — is not anchored at the
+    default 8.0 of `stochastic_ternary`, and its omission at 6.0 is not an omission of the default -/
+example : Cond.anchored (.float 8) (.ne (.float 6)) = false ∧
+    (Cond.ne (.float 6)).holds (.float 6) = false ∧ (PyVal.float 8).pyEq (.float 6) = false := by
+  decide +kernel
+
+/-- `Kinded` does exclude something: `alpha=0` (falsy, neither None nor a usable scale) under
+    the `if self.alpha:` test of `quantized_bits` -/
+example : ¬ Kinded ⟨.quantized_bits, (params .quantized_bits).map fun p =>
+    if p.1 == "alpha" then (p.1, .int 0) else p⟩ := by decide +kernel
 
 /-- `Typed` does exclude something: a fraction where a flag is expected (`str(int(0.5))` is "0") -/
 example : ¬ Typed ⟨.quantized_tanh, [("bits", .int 8), ("use_stochastic_rounding", .float (1 / 2)),
